@@ -57,7 +57,11 @@ def main():
         def run_demo(tag):
             if not (args.demo and demo):
                 return
-            cmd = ['/venv/bin/python', demo] if demo.endswith('.py') else ['/bin/bash', demo]
+            # same layout as where the demonstration was written: <tree>/_seed/<X>/demo.py
+            ddir = os.path.join(tmp, '_seed', 'X')
+            os.makedirs(ddir, exist_ok=True)
+            dpath = shutil.copy(demo, ddir)
+            cmd = ['/venv/bin/python', dpath] if dpath.endswith('.py') else ['/bin/bash', dpath]
             res = subprocess.run(cmd, cwd=tmp, env=env, capture_output=True, text=True, timeout=1800)
             tail = (res.stdout.strip().splitlines() or res.stderr.strip().splitlines() or [''])[-1]
             print(f'demo [{tag}]: exit {res.returncode}  {tail[:160]}')
